@@ -264,25 +264,77 @@ inline void flush_stats(const Stats& S)
 
 }
 
-// ---------------------------------------------------------------- parallel-for over work items
+// ---------------------------------------------------------------- parallel-for over work items, with a progress monitor
+// Every worker publishes the item it is working on and its thread CPU clock; a monitor thread reports a worker that
+// has burnt more than HANG_CPU_S seconds of CPU on ONE item (normally < 10 ms): a call that does not return.  CPU time,
+// not wall time, so a loaded machine cannot trigger it.  Under C14 that is a violation (with the item as witness);
+// under the other properties the run is inconclusive.
+#include <pthread.h>
+static const double HANG_CPU_S = 30.0;
+inline double cpu_of(clockid_t c)
+{
+    timespec ts;
+    if (clock_gettime(c, &ts) != 0)
+        return 0;
+    return (double)ts.tv_sec + 1e-9 * (double)ts.tv_nsec;
+}
 template <class F>
-void parallel_for(uint64_t n, F f) // f(item index, thread-local Stats&)
+void parallel_for(uint64_t n, F f, std::function<std::string(uint64_t)> describe = nullptr) // f(item index, thread-local Stats&)
 {
     std::atomic<uint64_t> next(0);
     std::vector<Stats> local(g.nthreads);
     std::vector<std::thread> th;
+    struct Slot
+    {
+        std::atomic<uint64_t> item { ~0ull };
+        std::atomic<long long> start_us { 0 };
+        clockid_t clock;
+        std::atomic<int> live { 0 };
+    };
+    std::vector<Slot> slots(g.nthreads);
+    std::atomic<int> done(0);
     for (unsigned t = 0; t < g.nthreads; ++t)
         th.emplace_back([&, t]
                         {
+            pthread_getcpuclockid(pthread_self(), &slots[t].clock);
+            slots[t].live = 1;
             for (;;)
             {
                 uint64_t i = next.fetch_add(1);
                 if (i >= n)
                     break;
+                slots[t].start_us = (long long)(cpu_of(slots[t].clock) * 1e6);
+                slots[t].item = i;
                 f(i, local[t]);
-            } });
+            }
+            slots[t].live = 0;
+            done++; });
+    std::thread monitor([&]
+                        {
+        while (done.load() < (int)g.nthreads)
+        {
+            usleep(200000);
+            for (unsigned t = 0; t < g.nthreads; ++t)
+            {
+                if (!slots[t].live.load())
+                    continue;
+                double used = cpu_of(slots[t].clock) - (double)slots[t].start_us.load() * 1e-6;
+                uint64_t it = slots[t].item.load();
+                if (it != ~0ull && used > HANG_CPU_S)
+                {
+                    std::string d = describe ? describe(it) : ("item " + std::to_string(it));
+                    if (g.prop == "C14")
+                        emit("{\"t\":\"viol\",\"prop\":\"C14\",\"op\":\"call_does_not_return\",\"type\":\"?\",\"cls\":\"hang\",\"arch\":\"*\",\"w\":{\"item\":" + jstr(d) + ",\"cpu_seconds_on_one_block\":" + std::to_string(used) + "}}");
+                    else
+                        emit("{\"t\":\"inconclusive\",\"why\":" + jstr("a call did not return within " + std::to_string((int)HANG_CPU_S) + " CPU seconds: " + d) + "}");
+                    emit("{\"t\":\"done\"}");
+                    _exit(0);
+                }
+            }
+        } });
     for (auto& x : th)
         x.join();
+    monitor.join();
     extern Stats g_stats;
     for (auto& l : local)
         g_stats.merge(l);
